@@ -88,7 +88,8 @@ def close(a, b):
 
 def extract_oracle(ctx, c):
     import cij.cli.extract
-    d = tempfile.mkdtemp(prefix="cijc19-")
+    from ..datasets import reused_dir
+    d = reused_dir("c19")              # the same directory as the previous case, tables rewritten
     try:
         T, P, tabs = write_tables(d, c)
         names = [VARS[k][0] for k in c["vars"]]
@@ -99,7 +100,7 @@ def extract_oracle(ctx, c):
         args = ["-v", ",".join(names), "-" + c["mode"], repr(float(req))] + (["-h"] if c["hide"] else [])
         res = run_cli(d, cij.cli.extract.main, args)
     finally:
-        shutil.rmtree(d, ignore_errors=True)
+        pass
     if res.exit_code != 0:
         raise PropertyViolation("C19/extract/failed", "cij extract failed: %r" % (res.exception,), c)
     text = res.output
@@ -145,7 +146,8 @@ def geotherm_oracle(ctx, c):
     errs = []
     gtext = None
     for refine in (1, 2):
-        d = tempfile.mkdtemp(prefix="cijc19-")
+        from ..datasets import reused_dir
+        d = reused_dir("c19")
         try:
             T, P, tabs = write_tables(d, c, nt=(c["nt"] - 1) * refine + 1, npr=(c["np"] - 1) * refine + 1)
             if gtext is None:
@@ -153,7 +155,7 @@ def geotherm_oracle(ctx, c):
             open(os.path.join(d, "geotherm.txt"), "w").write(gtext)
             res = run_cli(d, cij.cli.geotherm.main, ["-g", "geotherm.txt", "-v", ",".join(names)])
         finally:
-            shutil.rmtree(d, ignore_errors=True)
+            pass
         if res.exit_code != 0:
             raise PropertyViolation("C19/geotherm/failed", "cij extract-geotherm failed: %r" % (res.exception,), c)
         cols, _, vals = parse_frame_stdout(res.output, index=False)
